@@ -134,6 +134,8 @@ def write_ndjson(objs):
 def parallel(jobs, max_workers=8):
     """jobs: {name: thunk}. Runs them in threads; returns {name: result}; first exception propagates."""
     out = {}
+    if PAR > 0:
+        max_workers = min(max_workers, 2)      # shared box: at most two JVMs / harness pools at a time
     with ThreadPoolExecutor(max_workers=max_workers) as ex:
         futs = {name: ex.submit(fn) for name, fn in jobs.items()}
         for name, fu in futs.items():
